@@ -105,8 +105,11 @@ def run(ctx):
     for d1 in range(10):               # summer-solstice day shifted over 10 consecutive days: every stem
         for d2 in (-2, -1, 0, 1, 2, 3):
             tm = typical_terms(range(Y - 1, Y + 3))
-            tm[(Y, 12)] = (tm[(Y, 12)][0] + d1 - 4, tm[(Y, 12)][1])
-            tm[(Y, 15)] = (tm[(Y, 15)][0] + d2, tm[(Y, 15)][1])
+            # the instants sit late in the evening in a third of the scenarios: the Geng count starts from the solstice's CIVIL day
+            # (an instant-level view already shows the next day's pillar from 23:00)
+            late = 84600 if (d1 + d2) % 3 == 0 else tm[(Y, 12)][1]
+            tm[(Y, 12)] = (tm[(Y, 12)][0] + d1 - 4, late)
+            tm[(Y, 15)] = (tm[(Y, 15)][0] + d2, 83000 if (d1 + d2) % 3 == 1 else tm[(Y, 15)][1])
             scen_d.append(tm)
     win = list(range(CAL.jdn(Y, 6, 10), CAL.jdn(Y, 9, 10)))
 
